@@ -3,7 +3,7 @@ real predicates (is_public, is_private, is_special, is_class_private, is_importe
 is_wildcard_exposed)."""
 from __future__ import annotations
 
-NAME = {"plain": "x", "_x": "_x", "__x": "__x", "__x__": "__x__"}
+NAME = {"plain": "x", "_x": "_x", "__x": "__x", "__x__": "__x__", "_x__": "_x__"}
 PREDS = {"public": "is_public", "private": "is_private", "special": "is_special", "class_private": "is_class_private",
          "imported": "is_imported", "exported": "is_exported", "wildcard": "is_wildcard_exposed"}
 
